@@ -47,4 +47,43 @@ def cutOpen (ram : State) (full : List Write) (k j : Nat) : Except Err State :=
     | none => 0
   openCut ram f torn
 
+/-! ### `clear` on a live folder: the two truncations are crash points too
+
+    `Traph.clear` empties the trie file first and the link file second (`open(path, "wb+")`, in memory the two
+    `storage.clear()` calls), then writes the two headers. The events a crash can separate are therefore the
+    storage writes plus these two truncations. -/
+
+inductive Event where
+  | write (w : Write)
+  | truncTrie
+  | truncLinks
+deriving DecidableEq, Repr, Inhabited
+
+/-- the order in which `clear` empties the two stores: pointers (trie) first, pointees (links) second -/
+def clearTruncations : List Event := [.truncTrie, .truncLinks]
+
+def Files.applyE (f : Files) : Event → Files
+  | .write w => f.apply w
+  | .truncTrie => { f with hdrId := 0, trie := #[] }
+  | .truncLinks => { f with links := #[] }
+
+/-- the files after the events `es` (oldest first) -/
+def replayE (es : List Event) : Files := es.foldl Files.applyE {}
+
+def Event.isAppend (f : Files) : Event → Bool
+  | .write w => w.isAppend f
+  | _ => false
+
+/-- the events of one request: `clear` truncates before it writes anything -/
+def opEvents (isClear : Bool) (ws : List Write) : List Event :=
+  (if isClear then clearTruncations else []) ++ ws.map .write
+
+/-- cut after the first `k` events plus `j` bytes of the next one (only an append can be torn) -/
+def cutOpenE (ram : State) (full : List Event) (k j : Nat) : Except Err State :=
+  let f := replayE (full.take k)
+  let torn := match full[k]? with
+    | some e => if e.isAppend f then j else 0
+    | none => 0
+  openCut ram f torn
+
 end Traph
